@@ -30,6 +30,41 @@ class HarnessError(Exception):
 S = None  # the scheduler of the execution in progress
 
 
+class _Carrier(object):
+    """A reusable OS thread: managed threads of successive executions run on carriers instead of fresh OS threads."""
+
+    def __init__(self):
+        self.wake = _rt.Semaphore(0)
+        self.job = None
+        self.t = _rt.Thread(target=self.loop, daemon=True, name="mc-carrier")
+        self.t.start()
+
+    def loop(self):
+        while True:
+            self.wake.acquire()
+            job, self.job = self.job, None
+            try:
+                job()
+            finally:
+                _IDLE.append(self)
+
+
+_IDLE = []
+
+
+def _spawn(job):
+    try:
+        c = _IDLE.pop()
+    except IndexError:
+        c = _Carrier()
+    c.job = job
+    c.wake.release()
+    return c
+
+
+os.register_at_fork(after_in_child=lambda: _IDLE.__delitem__(slice(None)))
+
+
 class MThread(object):
     """threading.Thread replacement backed by a real OS thread gated by a baton."""
 
@@ -63,35 +98,37 @@ class MThread(object):
             self.name = "T%d" % self.index
         s.threads.append(self)
         self.created_at = s.nsteps
-        self.os = _rt.Thread(target=self._boot, args=(s,), daemon=True)
-        self.os.start()
+        self.os = _spawn(lambda: self._boot(s))
 
     def run(self):
         if self._target is not None:
             self._target(*self._args, **self._kwargs)
 
     def _boot(self, s):
-        self.baton.acquire()
-        if s.aborting:
-            self.state = "done"
-            return
-        if s.tracer is not None:
-            sys.settrace(s.tracer)
         try:
-            self.run()
-        except Abort:
-            pass
-        except BaseException as ex:  # noqa - recorded, the harness decides
-            self.exc = ex
+            self.baton.acquire()
+            if s.aborting:
+                self.state = "done"
+                return
+            if s.tracer is not None:
+                sys.settrace(s.tracer)
+            try:
+                self.run()
+            except Abort:
+                pass
+            except BaseException as ex:  # noqa - recorded, the harness decides
+                self.exc = ex
+            finally:
+                sys.settrace(None)
+                self.state = "done"
+                self.finished_at = s.nsteps
+                if not s.aborting:
+                    try:
+                        s.thread_finished(self)
+                    except Abort:
+                        pass
         finally:
-            sys.settrace(None)
-            self.state = "done"
-            self.finished_at = s.nsteps
-            if not s.aborting:
-                try:
-                    s.thread_finished(self)
-                except Abort:
-                    pass
+            s.exit_sem.release()
 
     def is_alive(self):
         return self.state == "run"
@@ -134,6 +171,7 @@ class Scheduler(object):
         self.aborting = False
         self.status = None  # ok / deadlock / livelock
         self.done_sem = _rt.Semaphore(0)
+        self.exit_sem = _rt.Semaphore(0)  # released once by every managed thread when its body has unwound
         self.step = step
         self.audited = frozenset(audited)
         self.opcode_funcs = frozenset(opcode_funcs)
@@ -640,8 +678,7 @@ def run_one(main, choices=(), expect=None, timer_budget=0, audited=(), step=None
     t0.ident = 1000
     s.threads.append(t0)
     s.cur = t0
-    t0.os = _rt.Thread(target=t0._boot, args=(s,), daemon=True)
-    t0.os.start()
+    t0.os = _spawn(lambda: t0._boot(s))
     t0.baton.release()
     if not s.done_sem.acquire(timeout=WATCHDOG_S):
         import faulthandler
@@ -674,9 +711,8 @@ def run_one(main, choices=(), expect=None, timer_budget=0, audited=(), step=None
             t.baton.release()
     for t in s.threads:
         if t.os is not None:
-            t.os.join(WATCHDOG_S)
-            if t.os.is_alive():
-                raise HarnessError("managed thread %s did not unwind" % t.name)
+            if not s.exit_sem.acquire(timeout=WATCHDOG_S):
+                raise HarnessError("a managed thread did not unwind (threads: %r)" % [(x.name, x.state) for x in s.threads])
     if s.status == "diverged":
         raise HarnessError("replay diverged: %s (choices=%r)" % (ex.detail, list(choices)))
     return ex
